@@ -79,8 +79,10 @@ class Explorer:
     """
 
     def __init__(self, inputs, domain, body, tr, max_regions=400, timeout=20.0, closure_timeout=30.0,
-                 label='', check_defined=True, solvers=('z3', 'cvc5', 'z3new'), deadline=None, require_closure=True):
+                 label='', check_defined=True, solvers=('z3', 'cvc5', 'z3new'), deadline=None, require_closure=True,
+                 parallel=False):
         self.require_closure = require_closure
+        self.parallel = parallel
         self.inputs = dict(inputs)
         self.domain = domain
         self.body = body
@@ -132,7 +134,8 @@ class Explorer:
                                             dict(witness)))
                         continue
                     st, r, text = prove(d, ghyps, g.node, timeout=g.timeout or self.timeout,
-                                        solvers=self.solvers, get_values=varids, tr=tr, label=g.label)
+                                        solvers=self.solvers, get_values=varids, tr=tr, label=g.label,
+                                        parallel=self.parallel)
                     if st == 'proved':
                         g.proved_node = g.node
                     for alt in g.alts:
